@@ -1116,17 +1116,9 @@ func (x *Exec) dispatch(st *Step, ev Ev) {
 	case "FilteredApply":
 		qf := x.frame(st.Recv)
 		ts := newTableSet()
-		// the rows on which functions are evaluated are those of the (separately validated) Filter
-		var mask []bool
-		if qf.Err == nil {
-			func() {
-				defer func() { recover() }()
-				mask = filterMask(qf, st.Clause.build())
-			}()
-		}
-		if mask != nil {
-			applyRef(newRefCols(qf), st.Instrs, ts, mask)
-		}
+		// tables are filled for ALL rows - a superset of the rows the clause selects; which rows the
+		// functions are applied to is decided by the specification alone (an unused entry is harmless)
+		applyRef(newRefCols(qf), st.Instrs, ts, nil)
 		ev["a"] = Ev{"clause": st.Clause.tla(qf), "instrs": instrsTla(st.Instrs), "tbls": ts.tla()}
 		x.result(ev, qf.FilteredApply(st.Clause.build(), instrsGo(st.Instrs)...))
 	case "WithRowNums":
@@ -1327,28 +1319,6 @@ func aggAdd(t *Table, vals []GV) {
 	}
 	row = append(row, resCell)
 	t.Rows = append(t.Rows, row)
-}
-
-// filterMask tells which rows of qf match the clause, by numbering the rows and filtering the numbered
-// frame. It is only used to restrict table filling to the rows on which FilteredApply evaluates its
-// functions; Filter and WithRowNums are validated by their own events.
-func filterMask(qf qframe.QFrame, cl qframe.FilterClause) []bool {
-	name := "verif_rownum_"
-	for qf.Contains(name) {
-		name += "_"
-	}
-	fq := qf.WithRowNums(name).Filter(cl)
-	if fq.Err != nil {
-		return nil
-	}
-	mask := make([]bool, qf.Len())
-	v := fq.MustIntView(name)
-	for i := 0; i < v.Len(); i++ {
-		if r := v.ItemAt(i); r >= 0 && r < len(mask) {
-			mask[r] = true
-		}
-	}
-	return mask
 }
 
 func cellEq(a, b Cell) bool {
